@@ -103,6 +103,9 @@ func runC18(c *an.Ctx) {
 		})
 	}
 
+	// all listeners of one limiter share its counter and condition variable
+	checkFieldMap(c, "C18-R2", "connlimiter.(*Limiter).Limit", "connlimiter.limitListener", map[string]string{"counterCond": "p0.counterCond", "counter": "p0.counter"})
+
 	// ---- R3
 	for _, fn := range c.FnsMatching("connlimiter.") {
 		if c.IsTestFile(fn.Pos()) {
